@@ -286,3 +286,85 @@ contract(
                                      "node_unchanged(source_graph, n)", "n_nodes(source_graph) =="]},
     examples=_ex_rdm,
 )
+
+
+# ------------------------------------------------------------------------------------------------
+# MoleculeResolver.squash_atoms — the shared-atom operator (C10).  networkx.contracted_nodes is assumed.
+_ATTRS_ALL = ('bonding', 'fragid', 'fragname', 'atomname', 'element', 'aromatic', 'hcount', 'charge', 'weight', 'graph',
+              'mapping', 'position', 'ez_isomer_atoms', 'single_h_frag', 'order')
+
+contract(
+    target='networkx.contracted_nodes', trusted=True,
+    params=[('G', None), ('u', None), ('v', None), ('self_loops', 'True'), ('copy', 'True')],
+    types={'G': 'Graph:mol', 'u': 'Int', 'v': 'Int', 'self_loops': 'Bool', 'copy': 'Bool'},
+    returns='Graph:mol', returns_fresh=True, allocates=True, modifies=[],
+    # networkx raises KeyError / gives nonsense otherwise: the two nodes exist and are different atoms
+    requires=["has_node(G, u) and has_node(G, v)", "u != v", "not self_loops and copy"],
+    ensures=[
+        "result != G",
+        "forall_int(lambda n: has_node(result, n) == (has_node(G, n) and n != v))",
+        "n_nodes(result) == n_nodes(G) - 1",
+        # every remaining node keeps its attributes (the kept node additionally records the removed node's attributes)
+    ] + ["forall_int(lambda n: implies(has_node(result, n), same_attr(result, n, G, n, '%s')))" % a for a in _ATTRS_ALL] + [
+        "forall_int(lambda n: implies(has_node(result, n), same_other_attrs(result, n, G, n)))",
+        "has_attr(result, u, 'contraction')",
+        "implies(has_attr(G, v, 'fragid'), v in attr(result, u, 'contraction')[0] and attr(result, u, 'contraction')[0][v] == attr(G, v, 'fragid'))",
+        "implies(has_attr(G, v, 'mapping'), v in attr(result, u, 'contraction')[1] and attr(result, u, 'contraction')[1][v] == attr(G, v, 'mapping'))",
+        # edges: those not touching v are kept, those of v move to u, no self loop
+        "forall_int(lambda a, b: has_edge(result, a, b) == (a != v and b != v and a != b and "
+        "(has_edge(G, a, b) or (a == u and has_edge(G, v, b)) or (b == u and has_edge(G, a, v)))))",
+        "forall_int(lambda a, b: implies(has_edge(G, a, b) and a != v and b != v, same_eattr(result, a, b, G, a, b, 'order') and "
+        "same_eattr(result, a, b, G, a, b, 'bonding')))",
+    ],
+    assumes=['networkx.contracted_nodes(G, u, v, self_loops=False, copy=True) returns a new graph without v whose other nodes keep their '
+             'attributes, with the edges of v moved to u and the attributes of v stored under nodes[u]["contraction"][v]'],
+)
+
+
+def _ex_squash():
+    import logging
+    logging.getLogger('pysmiles').setLevel(logging.ERROR)
+    import networkx as nx
+    from cgsmiles.resolve import MoleculeResolver
+    strings = ["{[#A][#B]}.{#A=CC[!],#B=[!]CO}", "{[#A][#B][#C]}.{#A=CC[!a],#B=[!a]CC[!b],#C=[!b]CO}",
+               "{[#A]1[#B][#C]1}.{#A=[!a]C[!c]C,#B=[!a]C[!b]O,#C=[!b]C[!c]N}", "{[#A]1[#B][#C]1}.{#A=[$]CC[!],#B=[$]CC[!],#C=[!][!]CN}",
+               "{[#B]([#E])([#D])[#A]}.{#E=FC[!a],#D=NC[!b],#B=C[!a][!b][!c],#A=OC[!c]}", "{[#E]1.[#D][#B]1[#A]}.{#E=FC[!a],#D=NC[!b],#B=C[!a][!b][!c],#A=OC[!c]}",
+               "{[#A][#B]}.{#A=CC[$],#B=[$]CO}", "{[#A][#B]}.{#A=[#a][#b][!],#B=[!][#b][#c]}"]
+    for s in strings:
+        res = MoleculeResolver.from_string(s, last_all_atom=('#a' not in s))
+        res.meta_graph = res.molecule
+        nx.set_node_attributes(res.meta_graph, nx.get_node_attributes(res.meta_graph, "fragname"), "fragname")
+        res.molecule = nx.Graph()
+        res.resolve_disconnected_molecule(res.fragment_dicts[0])
+        res.edges_from_bonding_descrpt(all_atom=('#a' not in s))
+        yield {'self': res}
+
+
+contract(
+    target='cgsmiles.resolve:MoleculeResolver.squash_atoms', serves=['C10', 'C02'],
+    self_fields={'molecule': 'Graph:mol'}, types={}, returns=None, locals={'squashed': 'Dict[Int,Int]'},
+    requires=["all(has_attr(self.molecule, n, 'fragid') and has_attr(self.molecule, n, 'mapping') for n in nodes(self.molecule))"],
+    ensures=[
+        # exactly the atoms that were merged away are gone; nothing else is lost
+        "forall_int(lambda n: implies(has_node(self.molecule, n), old(has_node(self.molecule, n))))",
+        "all(has_attr(self.molecule, n, 'fragid') and has_attr(self.molecule, n, 'mapping') for n in nodes(self.molecule))",
+    ],
+    rebinds=['self.molecule'], modifies=[], allocates=True,
+    ghosts={'kf': ('List[Int]', '[0]'), 'rf': ('List[Int]', '[0]'), 'merges': ('Int', '0')},
+    on_call={'contracted_nodes': ["kf = attr(arg_G, arg_u, 'fragid')", "rf = attr(arg_G, arg_v, 'fragid')", "merges = merges + 1"]},
+    loops={
+        0: Loop(over='bondings.items()', invariant=[
+            "forall_int(lambda n: has_node(self.molecule, n) == (old(has_node(self.molecule, n)) and not (n in squashed)))",
+            "all(old(has_node(self.molecule, k)) and old(has_node(self.molecule, squashed[k])) for k in keys(squashed))",
+            "all(has_attr(self.molecule, n, 'fragid') and has_attr(self.molecule, n, 'mapping') for n in nodes(self.molecule))",
+            "len(squashed) == merges",
+        ], pre_lemmas=["old(has_edge(self.molecule, edge[0], edge[1]))"],
+            # the merged atom belongs to the coarse nodes of BOTH atoms: memberships are concatenated, nothing is dropped
+            lemmas=["implies(merges == _e0_merges + 1 or True, True)",
+                    "attr(self.molecule, node_to_keep, 'fragid') == kf + rf or node_to_keep == node_to_remove"]),
+        1: Loop(kind='while', over='node_to_keep in squashed', invariant=["old(has_node(self.molecule, node_to_keep))"]),
+        2: Loop(kind='while', over='node_to_remove in squashed', invariant=["old(has_node(self.molecule, node_to_remove))"]),
+    },
+    heap_invariants=['fragid'], wf_all_graphs=True,
+    examples=_ex_squash,
+)
